@@ -362,10 +362,17 @@ func czCompare(cs *czCase, pp *czPrepared, answer string, o *core.Outcome) {
 		}
 	}
 	var alarms []string
-	other := false
+	other, rtlBody := false, false
 	for _, e := range a.find("errs").args() {
 		switch e.head() {
 		case "other":
+			if e.args()[0].atom == "40" {
+				// a loop made atomic at the end of the body of a right-to-left loop (lookbehind in tail position):
+				// not modelled, but searched — canBeMadeAtomic reads such bodies left to right
+				rtlBody = true
+				o.Buckets = append(o.Buckets, "rtl-loop-body(unmodelled)")
+				continue
+			}
 			other = true
 			o.Buckets = append(o.Buckets, "other-rewrite:"+e.args()[0].atom)
 		case "blocked":
@@ -384,6 +391,13 @@ func czCompare(cs *czCase, pp *czPrepared, answer string, o *core.Outcome) {
 	if len(alarms) == 0 {
 		if other {
 			o.Buckets = append(o.Buckets, "pattern-with-other-rewrite")
+		}
+		if rtlBody {
+			if text, start, f := czSearch(cs); f != nil {
+				cs.Text, cs.Start = text, start
+				f.Key = "Cz:rtl-loop-body-changes-result"
+				o.Fail = f
+			}
 		}
 		return
 	}
@@ -443,10 +457,17 @@ func czSearch(cs *czCase) ([]rune, int, *core.Failure) {
 	inputs := append([][]rune{}, cs.Texts...)
 	stripped := []rune(strings.NewReplacer(`\`, "", "(", "", ")", "", "[", "", "]", "", "*", "", "+", "", "?", "", "|", "", "^", "", "$", "", "{", "", "}", "", ",", "").Replace(cs.Pattern))
 	alpha := append([]rune("ab-\n 1_"), stripped...)
-	for k := 0; k < 400; k++ {
+	if len(stripped) == 0 {
+		stripped = alpha
+	}
+	for k := 0; k < 1500; k++ {
 		var s []rune
-		for j := 1 + rng.Intn(7); j > 0; j-- {
-			s = append(s, alpha[rng.Intn(len(alpha))])
+		for j := 1 + rng.Intn(10); j > 0; j-- {
+			if rng.Intn(4) == 0 {
+				s = append(s, alpha[rng.Intn(len(alpha))])
+			} else {
+				s = append(s, stripped[rng.Intn(len(stripped))])
+			}
 		}
 		inputs = append(inputs, s)
 	}
@@ -464,7 +485,7 @@ func c05RegisterCert(c *core.Ctx) {
 	z := &czGen{g: &engGen{allowRTL: false, perPat: 8, maxLen: 10, biasRewrite: true}}
 	core.RunLeg(c, core.Leg[czCase]{
 		Name: "Cz", Kind: "correspondence(certifier)+search",
-		Rule: "patterns as leg R (two thirds the shapes the rewrites look for), left-to-right. Each pattern is parsed with the rewrites off and on; both trees (gen.FromGoTree) go to Lean's cert (Model/AutoAtomic.lean; Props.C05.certified_find: a certified pair has the same find result from every start), with the oracle bits 'disjoint' and 'uniformly word/non-word' computed exactly from the structure of the engine's sets and Go's unicode tables on the boundary points of the tests. Buckets: trees-equal, certified (every difference is a modelled rewrite and is justified), other-rewrite:<code> (a tree difference cert does not model: prefix factoring, atomic-alternation reordering, loop-body sites …; counted, not an alarm), known-finding-KF2 (a loop over non-word runes still pending after passing \\B), not-certified:<reason>. A not-certified pattern starts a search (the pattern's directed inputs, 400 random strings over its own characters, every start offset) for an input on which the two compilations differ through the naive scan: found → impl-violation, not found → correspondence-break. non-trivial = the trees differ and were sent to Lean",
+		Rule: "patterns as leg R (two thirds the shapes the rewrites look for), left-to-right. Each pattern is parsed with the rewrites off and on; both trees (gen.FromGoTree) go to Lean's cert (Model/AutoAtomic.lean; Props.C05.certified_find: a certified pair has the same find result from every start), with the oracle bits 'disjoint' and 'uniformly word/non-word' computed exactly from the structure of the engine's sets and Go's unicode tables on the boundary points of the tests. Buckets: trees-equal, certified (every difference is a modelled rewrite and is justified), other-rewrite:<code> (a tree difference cert does not model: prefix factoring, atomic-alternation reordering, loop-body sites …; counted, not an alarm), known-finding-KF2 (a loop over non-word runes still pending after passing \\B), not-certified:<reason>. A not-certified pattern starts a search (the pattern's directed inputs, 1500 random strings mostly over its own characters, every start offset) for an input on which the two compilations differ through the naive scan: found → impl-violation, not found → correspondence-break. non-trivial = the trees differ and were sent to Lean",
 		N: c.N(1500, 60000), Corpus: czCorpus, Gen: z.next, Check: czCheck, Batch: 500,
 	})
 }
